@@ -1,4 +1,5 @@
 import CardVerif.Props.C17
+import CardVerif.Props.C17b
 /-! Axiom audit for C17 (gin views: the public card map is truthful, hidden cards stay hidden). -/
 #print axioms CardVerif.C17.hud_sound
 #print axioms CardVerif.C17.hud_no_stock_card
@@ -6,3 +7,13 @@ import CardVerif.Props.C17
 #print axioms CardVerif.C17.view_hud
 #print axioms CardVerif.C17.view_content
 #print axioms CardVerif.C17.wait_iff_off_turn
+#print axioms CardVerif.C17.deal_is_dealH
+#print axioms CardVerif.C17.preach_is_preachH
+#print axioms CardVerif.C17.hud_sound_from
+#print axioms CardVerif.C17.hud_no_stock_card_from
+#print axioms CardVerif.C17.hud_secrecy_from
+#print axioms CardVerif.C17.view_hud_from
+#print axioms CardVerif.C17.view_content_from
+#print axioms CardVerif.C17.wait_iff_off_turn_from
+#print axioms CardVerif.C17.hud_keys_nodup_from
+#print axioms CardVerif.C17.exDeal_dealH
